@@ -684,9 +684,12 @@ def preload():
         raise c.MachineryError("deferred writer queue not empty in the parent process")
 
 
-def fork_map(fn, args, timeout=120, nproc=None):
+def fork_map(fn, args, timeout=120, nproc=None, max_timeouts=8):
     """run fn(arg) for every arg, each in its own forked child (fresh process state), at most nproc at a time, with a hard
-    timeout per child.  Returns a list of ("ok", result) | ("timeout", None) | ("error", text) | ("machinery", text)."""
+    timeout per child.  Returns a list of ("ok", result) | ("timeout", None) | ("error", text) | ("machinery", text).
+    After max_timeouts children had to be killed the remaining timeout drops to timeout/6 (code that hangs everywhere must not
+    stall the check for hours; a timed-out run is no verdict)."""
+    ntimeout = 0
     preload()
     ctx = mp.get_context("fork")
     nproc = nproc or c.NPROC
@@ -722,7 +725,8 @@ def fork_map(fn, args, timeout=120, nproc=None):
                 pc.close()
                 del active[i]
                 progressed = True
-            elif time.time() - t0 > timeout:
+            elif time.time() - t0 > (timeout if ntimeout < max_timeouts else timeout / 6.0):
+                ntimeout += 1
                 p.kill()
                 p.join(5)
                 pc.close()
